@@ -132,6 +132,31 @@ def clause_api(cases, ctx: Ctx):
             r = ref.ravel().tolist()
             if ref.shape != (nb, B) or len(set(r)) != len(r) or any(i < 0 or i >= N for i in r):
                 add("C09/batches/not-a-partition", f"batches(batch_axes={axes}) rows {ref.tolist()}")
+        # a strict subset of the batch axes: rows are whole trajectories (axis 0) or whole time slices (axis 1)
+        grid = np.arange(N).reshape(E, T)
+        for axes, lines in ((0, [tuple(grid[e].tolist()) for e in range(E)]), (1, [tuple(grid[:, t].tolist()) for t in range(T)]),
+                            ((0,), [tuple(grid[e].tolist()) for e in range(E)]), (-1, [tuple(grid[:, t].tolist()) for t in range(T)])):
+            part = buf.flatten_axes(axes)
+            ref, fl = alignment_failures(part, f"flatten_axes({axes})", "C09/flatten-partial")
+            for s_, m in fl:
+                add(s_, m)
+            rows = [tuple(np.asarray(r).ravel().tolist()) for r in np.asarray(ref)]
+            if rows != lines:
+                add("C09/flatten-partial/rows", f"flatten_axes({axes}) yields rows {rows}, expected {lines}")
+            if key is not None:
+                for b in sorted({1, len(lines)}):
+                    sm = buf.sample(b, key=key, batch_axes=axes)
+                    ref, fl = alignment_failures(sm, f"sample({b}, batch_axes={axes})", "C09/sample-partial")
+                    for s_, m in fl:
+                        add(s_, m)
+                    got = [tuple(np.asarray(r).ravel().tolist()) for r in np.asarray(ref)]
+                    if len(got) != b or len(set(got)) != b or any(g not in lines for g in got):
+                        add("C09/sample-partial/not-distinct-stored-rows", f"sample({b}, batch_axes={axes}) returned rows {got}; the stored rows along these axes are {lines}")
+                try:
+                    buf.sample(len(lines) + 1, key=key, batch_axes=axes)
+                    add("C09/sample-partial/oversized-batch-accepted", f"sample({len(lines) + 1}, batch_axes={axes}) did not refuse a batch larger than the {len(lines)} stored rows")
+                except ValueError:
+                    pass
         if key is not None:
             sm = buf.sample(B, key=key)
             ref, fl = alignment_failures(sm, "sample", "C09/sample")
